@@ -215,6 +215,11 @@ class PropertyRun:
             "trusted_base": list(trusted),
             "repo": REPO,
         }
+        try:
+            from . import zshim
+            cov["zsteps_kernel"] = dict(zshim.STATE)
+        except Exception:
+            pass
         cov.update(self.detail)
         ev = {
             "property_id": self.pid,
